@@ -76,7 +76,7 @@ PROFILES = {
         6, ["READ", "OPFAIL"],
         c(Ops=CORE1, MaxSeq=5),
         [sim(50, 22, MaxSeq=14, MaxTables=5, MaxHist=20, MaxSealed=2, Ops=CORE1, WriteBias=3),
-         edges(60, 2000, Ops=CORE1, MaxSeq=6, MinLen=9),
+         edges(20, 2000, Ops=CORE1, MaxSeq=5, MinLen=8),
          drv(24, 160, DRIVE_W)],
         c(Ops=CORE_OPS, MaxSeq=6),
         [sim(1500, 30, Keys={1, 2, 3}, MaxSeq=24, MaxTables=6, MaxHist=30, Ops=CORE_OPS, WriteBias=4),
@@ -87,7 +87,7 @@ PROFILES = {
         6, ["READ", "SCAN", "SNAPRES", "OPFAIL"],
         c(Ops=SNAP_OPS, MaxSeq=5, MaxSnaps=1, MaxHist=4),
         [sim(50, 24, MaxSeq=16, MaxTables=5, MaxHist=20, MaxSnaps=2, Ops=SNAP_OPS | {"reopen"}, WriteBias=3),
-         edges(80, 2000, Ops=SNAP_OPS, MaxSeq=5, MaxSnaps=2, MaxHist=4, MinLen=8),
+         edges(40, 2000, Ops=SNAP_OPS, MaxSeq=5, MaxSnaps=1, MaxHist=4, MinLen=8),
          drv(24, 160, DRIVE_SNAP_W)],
         c(Ops=SNAP_OPS, MaxSeq=6, MaxSnaps=2, MaxHist=5),
         [sim(1500, 30, Keys={1, 2, 3}, MaxSeq=24, MaxTables=6, MaxHist=30, MaxSnaps=2,
@@ -111,7 +111,7 @@ PROFILES = {
         6, ["READ", "SCAN", "INVENT", "LOST", "OPFAIL"],
         c(Ops=CORE1, MaxSeq=5),
         [sim(50, 24, MaxSeq=16, MaxTables=5, MaxHist=20, Ops=CORE1 | {"ingest"}, WriteBias=3),
-         edges(60, 2000, Ops=CORE1, MaxSeq=6, MinLen=9),
+         edges(20, 2000, Ops=CORE1, MaxSeq=5, MinLen=8),
          drv(24, 160, dict(DRIVE_W, reopen=2))],
         c(Ops=CORE_OPS | {"ingest"}, MaxSeq=6),
         [sim(1500, 30, Keys={1, 2, 3}, MaxSeq=24, MaxTables=6, MaxHist=30, Ops=CORE_OPS | {"ingest"}, WriteBias=4),
@@ -122,7 +122,7 @@ PROFILES = {
         6, ["STRUCT", "META"],
         c(Ops=CORE1, MaxSeq=5),
         [sim(50, 22, MaxSeq=14, MaxTables=5, MaxHist=20, Ops=CORE1 | {"ingest"}, WriteBias=3),
-         edges(60, 2000, Ops=CORE1, MaxSeq=6, MinLen=9),
+         edges(20, 2000, Ops=CORE1, MaxSeq=5, MinLen=8),
          drv(24, 160, dict(DRIVE_W, ingest=0.5))],
         c(Ops=CORE_OPS, MaxSeq=6),
         [sim(1500, 30, Keys={1, 2, 3}, MaxSeq=24, MaxTables=6, MaxHist=30, Ops=CORE_OPS | {"ingest"}, WriteBias=4),
@@ -131,7 +131,7 @@ PROFILES = {
     # C08 key-value separation is invisible
     "C08": tree_profile(
         6, ["READ", "SCAN", "SCANX", "SNAPRES", "DANGLE", "PTR", "INVENT", "LOST", "OPFAIL"],
-        c(Ops=CORE1 | {"snap"}, MaxSeq=5, MaxSnaps=1, BigVals={2, 3}),
+        c(Ops=CORE1 | {"snap"}, MaxSeq=4, MaxSnaps=1, BigVals={2, 3}),
         [sim(40, 24, MaxSeq=16, MaxTables=5, MaxHist=20, MaxSnaps=2, MaxSealed=2, BigVals={2, 3},
              Ops=CORE1 | {"snap"}, WriteBias=3),
          drv(32, 160, DRIVE_SNAP_W)],
@@ -145,7 +145,7 @@ PROFILES = {
     "C09": tree_profile(
         6, ["GC", "STALE", "LINKS", "DEAD", "PTR", "OPFAIL"],
         c(Ops=CORE1, MaxSeq=5, BigVals={2, 3}),
-        [sim(40, 24, MaxSeq=16, MaxTables=5, MaxHist=20, MaxSealed=2, BigVals={2, 3},
+        [sim(8, 24, MaxSeq=16, MaxTables=5, MaxHist=20, MaxSealed=2, BigVals={2, 3},
              Ops=CORE1 | {"droprange"}, WriteBias=3),
          drv(32, 160, dict(DRIVE_W, droprange=0.6))],
         c(Ops=CORE1, MaxSeq=6, BigVals={2, 3}),
@@ -222,8 +222,8 @@ PROFILES = {
     # C20 obsolete files reclaimed, nothing live deleted
     "C20": tree_profile(
         4, ["FILES", "DIRCLEAN", "DANGLE", "PTR", "OPFAIL"],
-        c(Ops=CORE1 | {"snap"}, MaxSeq=5, MaxSnaps=1),
-        [sim(30, 24, MaxSeq=16, MaxTables=5, MaxHist=20, MaxSnaps=2, MaxSealed=2, BigVals={2, 3},
+        c(Ops=CORE1 | {"snap"}, MaxSeq=4, MaxSnaps=1),
+        [sim(8, 24, MaxSeq=16, MaxTables=5, MaxHist=20, MaxSnaps=2, MaxSealed=2, BigVals={2, 3},
              Ops=CORE1 | {"snap", "clear", "droprange", "ingest"}, WriteBias=3),
          drv(24, 160, dict(DRIVE_SNAP_W, clear=0.4, droprange=0.8, ingest=0.5, major=1.0))],
         c(Ops=CORE1 | {"snap"}, MaxSeq=6, MaxSnaps=1),
